@@ -148,7 +148,8 @@ Definition process_connection_events (ls : list link) (t : tracker) (idx : nat) 
 
 (** packet_handler.rs handle_uplink_packet.  Result: state, the datagrams that reached
     the client socket (fast path first), and whether the step panicked (a decoder
-    index out of bounds or an unchecked i32 overflow in the window arithmetic). *)
+    index out of bounds, or an unchecked i32 overflow in the window arithmetic newly
+    recorded by this step). *)
 Definition handle_uplink (s : ustate) (id : Z) (w : wd) (now : Z) (classic : bool)
   : ustate * list wd * bool :=
   match bytes_of w with
@@ -166,7 +167,7 @@ Definition handle_uplink (s : ustate) (id : Z) (w : wd) (now : Z) (classic : boo
             process_connection_events (upd idx (fun _ => c') ls) (trk (core s)) idx classic now inc (client s) in
           ({| core := {| links := ls'; trk := trk (core s) |};
               xs := upd idx (fun _ => x') (xs s); client := client s |},
-           fast ++ fwd, existsb ovf ls')
+           fast ++ fwd, negb (existsb ovf ls) && existsb ovf ls')
         | _ => (s, [], true)
         end
       | _, _ => (s, [], false)
